@@ -31,6 +31,7 @@ func c04RealBinary(c *Ctx, progress func(string)) {
 		return
 	}
 	airgapped.N = 1 << 16 // the shipped scrypt cost
+	c04SetSeedAfterExpiry(c, progress)
 	n, t, victim := 2, 2, 1
 	for ri, restartBefore := range []string{"", OpResponses} {
 		seed := c.Seed*227 + uint64(ri)
@@ -119,6 +120,55 @@ func c04RealBinary(c *Ctx, progress func(string)) {
 			pm.Exit()
 			judgeSecretsIn(c, w.Dir, pm.DBPath, "the cmd/airgapped binary's database", sched.Derive(seed, 405), wit)
 			c.Add("ceremonies_with_the_real_airgapped_binary", 1)
+		}()
+	}
+}
+
+// c04SetSeedAfterExpiry: the real binary with a short password lifetime. The operator enters the password,
+// lets it expire (the machine drops its keys from memory) and then runs set_seed, answering every question
+// the machine asks; then exit. The database must hold the new long-term key under the operator's password
+// and under nothing else (judged from outside like every other database of this check).
+func c04SetSeedAfterExpiry(c *Ctx, progress func(string)) {
+	for ri, expiry := range []string{"1s", "1500ms"} {
+		seed := c.Seed*229 + uint64(ri)
+		progress("set_seed on the real airgapped binary after the password expired")
+		wit := map[string]interface{}{"family": "real cmd/airgapped process; set_seed after the password expired", "password_expiration": expiry, "case_seed": seed}
+		w, err := world.NewWorld(world.Options{N: 2, T: 2, Seed: seed})
+		if err != nil {
+			c.Inconclusive("world: %v", err)
+			return
+		}
+		func() {
+			defer w.Close()
+			pm := world.NewProcMachine(filepath.Join(w.Dir, fmt.Sprintf("c04expired_%d", ri)), world.Password)
+			pm.Expiry = expiry
+			defer pm.Kill()
+			if err := pm.Start(); err != nil {
+				c.Inconclusive("expired-password part: start: %v", err)
+				return
+			}
+			if ri == 1 {
+				// a seed was already set while the password was valid
+				if _, err := pm.SetSeedByPrompt(w.Nodes[0].Mnemonic); err != nil {
+					c.Inconclusive("expired-password part: first set_seed: %v", err)
+					return
+				}
+			}
+			time.Sleep(3 * time.Second) // lets the expiry timer fire; nothing is decided on this duration
+			asked, err := pm.SetSeedByPrompt(w.Nodes[1].Mnemonic)
+			if err != nil {
+				c.Inconclusive("expired-password part: set_seed: %v", err)
+				return
+			}
+			if asked {
+				c.Add("set_seed_commands_that_asked_for_the_expired_password_first", 1)
+			}
+			wit["machine_asked_for_the_password_before_set_seed"] = asked
+			pm.Exit()
+			c.Eval(1)
+			c.Distinct(fmt.Sprintf("real-binary|set_seed-after-expiry|%s|asked=%v", expiry, asked))
+			judgeSecretsIn(c, w.Dir, pm.DBPath, "the cmd/airgapped binary's database after set_seed on an expired password", sched.Derive(seed, 406), wit)
+			c.Add("set_seed_after_password_expiry_on_the_real_binary", 1)
 		}()
 	}
 }
